@@ -527,6 +527,9 @@ func index(r *hx.Rand, n int) int {
 }
 
 func randMutator(r *hx.Rand, f ingest.Feature) string {
+	if a, ok := f.(*ingest.AreaFeature); ok && a.Len() == 0 && !r.Chance(1, 10) {
+		return "settag " + randTag(r) // nothing to index in an area without members
+	}
 	if r.Chance(2, 5) || kindOf(f) == kGeneric {
 		switch r.Intn(12) {
 		case 0:
@@ -625,73 +628,272 @@ func newRun(c *hx.Ctx, which int) *run {
 	return &run{c: c, w: newWorld(which), added: map[string]added{}, exposed: map[int]bool{}}
 }
 
+// randomStep performs one randomly chosen operation
+func randomStep(run *run, r *hx.Rand, focus kind) {
+	nv := len(run.vars)
+	x := r.Intn(20)
+	switch {
+	case nv == 0 || (x == 0 && nv < 7):
+		k := focus
+		if r.Chance(1, 4) {
+			k = kind(r.Intn(4))
+		}
+		n := 0
+		if k == kArea || k == kRelation {
+			n = r.Intn(4)
+		}
+		run.opNew(k, pick64(r, idRange[k]), n)
+	case x <= 2 && nv < 7:
+		run.opClone(r.Intn(nv))
+	case x <= 4:
+		// MergeFrom between two values of the same kind
+		i := r.Intn(nv)
+		var js []int
+		for j, g := range run.vars {
+			if j != i && kindOf(g) == kindOf(run.vars[i]) {
+				js = append(js, j)
+			}
+		}
+		if len(js) == 0 {
+			run.mut(i, randMutator(r, run.vars[i]))
+		} else {
+			run.opMerge(i, js[r.Intn(len(js))])
+		}
+	case x <= 8:
+		run.opAdd(r.Intn(nv))
+	case x == 9 && len(run.added) > 0:
+		keys := hx.SortedKeys(run.added)
+		a := run.added[keys[r.Intn(len(keys))]]
+		if r.Bool() {
+			run.opWorldTag(a, r.Pick(tagKeys), fmt.Sprintf("w%d", r.Intn(10)))
+		} else {
+			f := run.w.FindFeatureByID(a.id)
+			k := r.Pick(tagKeys)
+			if t := f.AllTags(); len(t) > 0 && r.Chance(3, 4) {
+				k = t[r.Intn(len(t))].Key
+			}
+			run.opWorldRemoveTag(a, k)
+		}
+	default:
+		// prefer values that are shared with the world or have clones: that is where isolation can break
+		i := r.Intn(nv)
+		for try := 0; try < 2 && !run.exposed[i]; try++ {
+			i = r.Intn(nv)
+		}
+		run.mut(i, randMutator(r, run.vars[i]))
+	}
+}
+
+func (r *run) finish() {
+	r.c.Note(fmt.Sprintf("vars:%d", len(r.vars)))
+	r.c.Note(fmt.Sprintf("world-entries:%d", len(r.added)))
+	if r.probes > 0 {
+		r.c.NonTrivial()
+	}
+}
+
 func randomCase(c *hx.Ctx) {
 	r := c.Rand
 	run := newRun(c, r.Intn(3))
 	nops := 8 + r.Intn(22)
 	focus := kind(r.Intn(4)) // most features of a case are of one kind, so that they meet in the world
 	for step := 0; step < nops; step++ {
-		nv := len(run.vars)
-		x := r.Intn(20)
-		switch {
-		case nv == 0 || (x == 0 && nv < 6):
-			k := focus
-			if r.Chance(1, 4) {
-				k = kind(r.Intn(4))
+		randomStep(run, r, focus)
+	}
+	run.finish()
+}
+
+// ---- the "grown value" scenario -------------------------------------------------------------
+//
+// A short value is stored; it is then REPLACED (world.AddFeature with the same id -> MergeFrom into the
+// stored struct) or merged (caller-side MergeFrom) by a LONGER one - more members / polygons / path ids
+// per member / keys and values / tags -; then elements BEYOND THE OLD LENGTH are mutated in place through
+// the caller's grown value, through a clone of it and through the receivers of the merges, and everything
+// is re-observed after each step.  This is the shape in which a MergeFrom/Clone that shares instead of
+// copying only the *additional* elements shows.
+
+// element returns the mutator that sets element i of the kind's list on a value whose list has room for it
+func fillElement(r *hx.Rand, k kind, i int) []string {
+	switch k {
+	case kArea:
+		if r.Chance(3, 4) {
+			n := 1 + r.Intn(2)
+			var ids []string
+			for j := 0; j < n; j++ {
+				ids = append(ids, fmt.Sprintf("%d", pick64(r, pathValues)))
 			}
-			n := 0
-			if k == kArea || k == kRelation {
-				n = r.Intn(3)
-				if k == kArea && n == 0 {
-					n = 1
-				}
+			return []string{fmt.Sprintf("setpathids %d %s", i, hx.List(ids))}
+		}
+		return []string{fmt.Sprintf("setpoly %d P%d", i, 1+r.Intn(3))}
+	case kRelation:
+		return []string{fmt.Sprintf("setmember %d %s", i, memberText(r))}
+	case kCollection:
+		return []string{fmt.Sprintf("appkv k%d v%d", 10+i, r.Intn(30))}
+	}
+	return nil
+}
+
+// build makes a new caller value of the kind with `elems` elements and `tags` tags; returns its index
+func (run *run) build(r *hx.Rand, k kind, id uint64, elems, tags int) int {
+	n := 0
+	if k == kArea || k == kRelation {
+		n = elems
+	}
+	run.opNew(k, id, n)
+	v := len(run.vars) - 1
+	if k != kGeneric {
+		for i := 0; i < elems; i++ {
+			for _, m := range fillElement(r, k, i) {
+				run.mut(v, m)
 			}
-			run.opNew(k, pick64(r, idRange[k]), n)
-		case x <= 2 && nv < 6:
-			run.opClone(r.Intn(nv))
-		case x <= 4:
-			// MergeFrom between two values of the same kind
-			i := r.Intn(nv)
-			var js []int
-			for j, g := range run.vars {
-				if j != i && kindOf(g) == kindOf(run.vars[i]) {
-					js = append(js, j)
-				}
-			}
-			if len(js) == 0 {
-				run.mut(i, randMutator(r, run.vars[i]))
-			} else {
-				run.opMerge(i, js[r.Intn(len(js))])
-			}
-		case x <= 8:
-			run.opAdd(r.Intn(nv))
-		case x == 9 && len(run.added) > 0:
-			keys := hx.SortedKeys(run.added)
-			a := run.added[keys[r.Intn(len(keys))]]
-			if r.Bool() {
-				run.opWorldTag(a, r.Pick(tagKeys), fmt.Sprintf("w%d", r.Intn(10)))
-			} else {
-				f := run.w.FindFeatureByID(a.id)
-				k := r.Pick(tagKeys)
-				if t := f.AllTags(); len(t) > 0 && r.Chance(3, 4) {
-					k = t[r.Intn(len(t))].Key
-				}
-				run.opWorldRemoveTag(a, k)
-			}
-		default:
-			// prefer values that are shared with the world or have clones: that is where isolation can break
-			i := r.Intn(nv)
-			for try := 0; try < 2 && !run.exposed[i]; try++ {
-				i = r.Intn(nv)
-			}
-			run.mut(i, randMutator(r, run.vars[i]))
 		}
 	}
-	c.Note(fmt.Sprintf("vars:%d", len(run.vars)))
-	c.Note(fmt.Sprintf("world-entries:%d", len(run.added)))
-	if run.probes > 0 {
-		c.NonTrivial()
+	for i := 0; i < tags && i < len(tagKeys); i++ {
+		run.mut(v, fmt.Sprintf("addtag %s=v%d", tagKeys[i], r.Intn(10)))
 	}
+	return v
+}
+
+func elemCount(f ingest.Feature) int {
+	switch f := f.(type) {
+	case *ingest.AreaFeature:
+		return f.Len()
+	case *ingest.RelationFeature:
+		return len(f.Members)
+	case *ingest.CollectionFeature:
+		return len(f.Keys)
+	}
+	return 0
+}
+
+// inPlace returns a mutator that overwrites element i (i < elemCount) of v without changing any length
+func inPlace(r *hx.Rand, f ingest.Feature, i int) string {
+	switch f := f.(type) {
+	case *ingest.AreaFeature:
+		if ids, ok := f.PathIDs(i); ok && len(ids) > 0 {
+			return fmt.Sprintf("setpathid %d %d %d", i, r.Intn(len(ids)), pick64(r, pathValues))
+		}
+		return fmt.Sprintf("setpoly %d P%d", i, 1+r.Intn(3))
+	case *ingest.RelationFeature:
+		return fmt.Sprintf("setmember %d %s", i, memberText(r))
+	case *ingest.CollectionFeature:
+		if r.Bool() {
+			return fmt.Sprintf("setkey %d k%d", i, 40+r.Intn(20))
+		}
+		return fmt.Sprintf("setval %d v%d", i, 40+r.Intn(20))
+	}
+	return ""
+}
+
+func growCase(c *hx.Ctx) {
+	r := c.Rand
+	run := newRun(c, r.Intn(3))
+	k := kind(r.Intn(4))
+	kw := kindWord[k]
+	c.Note("scenario:grow:" + kw)
+	id := pick64(r, idRange[k])
+	old, extra := r.Intn(3), 1+r.Intn(3)
+	oldTags, extraTags := r.Intn(3), 1+r.Intn(2)
+
+	// 1. the short value, stored
+	short := run.build(r, k, id, old, oldTags)
+	if run.opAdd(short) != "ok" {
+		c.Note("grow:first-add-rejected")
+	}
+	// 2. the grown value: built from scratch, or a clone of the short one that is then extended, or the
+	//    short value itself extended (areas cannot be extended through the API: always from scratch)
+	var grown int
+	variant := r.Intn(3)
+	if k == kArea {
+		variant = 0
+	}
+	switch variant {
+	case 0:
+		grown = run.build(r, k, id, old+extra, oldTags+extraTags)
+		c.Note("grow:from-scratch")
+	default:
+		grown = short
+		if variant == 1 {
+			run.opClone(short)
+			grown = len(run.vars) - 1
+			c.Note("grow:extended-clone")
+		} else {
+			c.Note("grow:extended-original")
+		}
+		for i := old; i < old+extra; i++ {
+			switch k {
+			case kRelation:
+				run.mut(grown, "appmember "+memberText(r))
+			case kCollection:
+				run.mut(grown, fmt.Sprintf("appkv k%d v%d", 10+i, r.Intn(30)))
+			}
+		}
+		for i := oldTags; i < oldTags+extraTags; i++ {
+			run.mut(grown, fmt.Sprintf("addtag %s=v%d", tagKeys[i], r.Intn(10)))
+		}
+	}
+	if k == kArea && r.Bool() && old > 0 {
+		// also grow an inner list: one more path id in an old member
+		if ids, ok := run.vars[grown].(*ingest.AreaFeature).PathIDs(0); ok {
+			run.mut(grown, fmt.Sprintf("setpathid 0 %d %d", len(ids), pick64(r, pathValues)))
+			c.Note("grow:inner-list")
+		}
+	}
+	// 3. receivers: the world entry (replacement), a short caller value (MergeFrom), a clone of the grown one
+	replaced := run.opAdd(grown) == "ok"
+	if replaced {
+		c.Note("grow:replace-accepted:" + kw)
+	} else {
+		c.Note("grow:replace-rejected:" + kw)
+	}
+	targets := []int{grown}
+	if r.Chance(2, 3) {
+		recv := run.build(r, k, pick64(r, idRange[k]), r.Intn(old+1), r.Intn(oldTags+1))
+		run.opMerge(recv, grown)
+		targets = append(targets, recv)
+		c.Note("grow:caller-mergefrom")
+	}
+	if r.Chance(2, 3) {
+		run.opClone(grown)
+		targets = append(targets, len(run.vars)-1)
+		c.Note("grow:clone-of-grown")
+	}
+	// 4. in-place mutation of the elements beyond the old length (and one old one), through every holder
+	rounds := 2 + r.Intn(3)
+	for round := 0; round < rounds; round++ {
+		v := targets[r.Intn(len(targets))]
+		f := run.vars[v]
+		if n := elemCount(f); n > 0 && k != kGeneric && r.Chance(3, 4) {
+			i := r.Intn(n)
+			if n > old && r.Chance(4, 5) {
+				i = old + r.Intn(n-old)
+				c.Note("grow:inplace-beyond-old-len:" + kw)
+			} else {
+				c.Note("grow:inplace-within-old-len:" + kw)
+			}
+			run.mut(v, inPlace(r, f, i))
+		} else if t := f.AllTags(); len(t) > 0 {
+			i := r.Intn(len(t))
+			if len(t) > oldTags && r.Chance(4, 5) {
+				i = oldTags + r.Intn(len(t)-oldTags)
+				c.Note("grow:inplace-beyond-old-len:tags:" + kw)
+			}
+			run.mut(v, fmt.Sprintf("settag %s=x%d", t[i].Key, r.Intn(10)))
+		}
+	}
+	// 5. the other direction: the world edits its (grown) entry in place
+	if replaced && r.Bool() {
+		a := run.added[key(k, b6.FeatureID{Type: kindType[k], Namespace: ns, Value: id})]
+		if t := run.w.FindFeatureByID(a.id).AllTags(); len(t) > 0 {
+			run.opWorldTag(a, t[len(t)-1].Key, fmt.Sprintf("w%d", r.Intn(10)))
+			c.Note("grow:world-edits-last-tag")
+		}
+	}
+	// 6. and a few arbitrary operations
+	for step := r.Intn(6); step > 0; step-- {
+		randomStep(run, r, k)
+	}
+	run.finish()
 }
 
 func corpus(c *hx.Ctx) {
@@ -744,10 +946,16 @@ func corpus(c *hx.Ctx) {
 func main() {
 	hx.Main(hx.Family{
 		Name: "c38",
-		Rule: "random interleavings (8-29 ops) of new/Clone/MergeFrom/every feature mutator/world.AddFeature/world.AddTag/RemoveTag over generic, area, relation and collection features and three kinds of mutable world (basic, overlay, overlay over a base holding the referenced paths); ids from small ranges so that adds replace earlier entries; 1 in 40 indices out of range (must panic and change nothing); non-trivial = at least one mutation of a value that had been added to the world, cloned, or is a clone (or a world-side tag edit); distinct = by hash of the op text",
+		Rule: "1 case in 3: the grown-value scenario (a short value is stored, then replaced / merged by a longer one - more members, polygons, path ids, keys+values, tags -, then elements beyond the old length are mutated in place through the grown value, a clone of it and a MergeFrom receiver; buckets grow:*); otherwise random interleavings (8-29 ops) of new/Clone/MergeFrom/every feature mutator/world.AddFeature/world.AddTag/RemoveTag over generic, area, relation and collection features and three kinds of mutable world (basic, overlay, overlay over a base holding the referenced paths); ids from small ranges so that adds replace earlier entries; 1 in 40 indices out of range (must panic and change nothing); non-trivial = at least one mutation of a value that had been added to the world, cloned, or is a clone (or a world-side tag edit); distinct = by hash of the op text",
 		Quick:    2500,
 		Thorough: 80000,
 		Corpus:   corpus,
-		Case:     randomCase,
+		Case: func(c *hx.Ctx) {
+			if c.CaseNo%3 == 0 {
+				growCase(c)
+			} else {
+				randomCase(c)
+			}
+		},
 	})
 }
